@@ -1,0 +1,30 @@
+//go:build verif
+
+package hamt
+
+// Machine-checked contracts for the govc verifier (/verif). This file is comment-only and is
+// compiled only with the "verif" build tag.
+
+//@ props C02 C08 C13
+
+//@ func hamt.mkmask
+//@ requires 0 <= n && n <= 8
+//@ ensures result == byte((1 << n) - 1)
+//@ assigns nothing
+
+//@ func (*hamt.hashBits).next
+//@ requires 1 <= i && i <= 62
+//@ requires 0 <= hb.consumed && hb.consumed <= len(hb.b)*8 && hb.consumed + i <= len(hb.b)*8
+//@ ensures msb-first: isBits(result, old(hb.b), old(hb.consumed), i)
+//@ inst msb-first: k: k - (8 - old(hb.consumed) % 8)
+//@ ensures consumed: hb.consumed == old(hb.consumed) + i
+//@ assigns hb.consumed
+//@ decreases i
+
+//@ func (*hamt.hashBits).Next
+//@ requires 1 <= i && i <= 62
+//@ requires 0 <= hb.consumed && hb.consumed <= len(hb.b)*8
+//@ ensures err == nil ==> isBits(result, old(hb.b), old(hb.consumed), i) && hb.consumed == old(hb.consumed) + i
+//@ ensures err != nil ==> hb.consumed == old(hb.consumed)
+//@ ensures err == nil <==> old(hb.consumed) + i <= len(old(hb.b))*8
+//@ assigns hb.consumed
